@@ -126,10 +126,19 @@ def _size_sample(rng, e, k, lim=26):
     return res[:k]
 
 
-def _run_case(e, m, n, coils, h, w, z, seed):
-    """Run the real network; returns (category, detail).  category: ok | wrong-shape | nonfinite | raises-<Exc>."""
+def _run_case(e, m, n, coils, h, w, z, seed, noncontig=False):
+    """Run the real network; returns (category, detail).  category: ok | wrong-shape | nonfinite | raises-<Exc>.
+    `noncontig`: the inputs are non-contiguous views (a permuted channels-last tensor for the denoisers, spatially transposed
+    storage for the reconstruction inputs)."""
     try:
-        if e.kind == "den2d":
+        if noncontig and e.kind in ("den2d", "gru"):
+            x = torch.randn((n, h, w, e.in_ch), generator=torch.Generator().manual_seed(seed)).permute(0, 3, 1, 2)
+            assert not x.is_contiguous() or min(h, w, e.in_ch) == 1
+            out = Z.run_entry(e, m, (x, None) if e.kind == "gru" else x)
+        elif noncontig and e.kind == "recon":
+            inp = {k: (v.transpose(2, 3) if v.ndim == 5 else v) for k, v in Z.recon_inputs(n, coils, w, h, seed=seed).items()}
+            out = Z.run_entry(e, m, inp)
+        elif e.kind == "den2d":
             x = torch.randn((n, e.in_ch, h, w), generator=torch.Generator().manual_seed(seed))
             out = Z.run_entry(e, m, x)
         elif e.kind == "den3d":
@@ -485,8 +494,8 @@ def _cases_for(ctx, e, deep):
             sizes = _size_sample(rng, e, 400 if e.kind == "recon" else 150, lim=49)
         sizes = sizes + _class_sizes(rng, e, 11, big=e.kind != "recon3d")
     else:
-        sizes = _size_sample(rng, e, 9 if e.kind in ("den2d", "gru") else 6)
-        sizes = sizes + [s for s in _class_sizes(rng, e, 4 if e.kind in ("den2d", "gru") else 3,
+        sizes = _size_sample(rng, e, 8 if e.kind in ("den2d", "gru") else 5)
+        sizes = sizes + [s for s in _class_sizes(rng, e, 3 if e.kind in ("den2d", "gru") else 2,
                                                  big=e.kind in ("den2d", "gru")) if s not in sizes]
     for i, (h, w) in enumerate(sizes):
         z = None
@@ -533,6 +542,21 @@ def oracle(ctx: Ctx, deep: bool = False):
                       bucket=f"oracle/{e.kind}/" + _bucket(h, w))
             if cat != "ok":
                 yield _violation(e, cat, detail, n, coils, h, w, z, seed)
+    # argument forms: non-contiguous inputs (views produced by permute / transpose, as the unrolled networks hand them on)
+    for e in zoo():
+        if e.finding or e.kind in ("den3d", "recon3d"):
+            continue
+        size = next((s for s in ((7, 10), (9, 12), (17, 20), (33, 36)) if e.admissible(*s)), None)
+        if size is None:
+            continue
+        h, w = size
+        n, coils = ctx.rng.choice([1, 2]), ctx.rng.choice([1, 3])
+        cat, detail = _run_case(e, model_of(e), n, coils, h, w, None, 5, noncontig=True)
+        ctx.count((e.name, "noncontig", n, coils, h, w), True, bucket=f"oracle/forms/noncontiguous/{e.kind}")
+        if cat != "ok":
+            v = _violation(e, cat, "non-contiguous input: " + detail, n, coils, h, w, None, 5)
+            v.replay["noncontig"] = True
+            yield v
     # below the minimum the networks must fail loudly (never a wrong size): every kind, small sizes
     for e in zoo():
         if e.finding:
@@ -545,7 +569,7 @@ def oracle(ctx: Ctx, deep: bool = False):
         elif ctx.thorough or deep:
             grid = [(h, w, 2 if e.kind == "recon3d" else None) for h, w in itertools.product(range(1, 6), repeat=2)]
         else:
-            grid = [(h, w, 2 if e.kind == "recon3d" else None) for h, w in ((1, 1), (1, 4), (2, 2), (3, 2), (2, 5), (4, 4))]
+            grid = [(h, w, 2 if e.kind == "recon3d" else None) for h, w in ((1, 1), (1, 4), (2, 2), (3, 2))]
         for h, w, z in grid:
             if e.admissible(h, w, z):
                 continue
@@ -561,5 +585,6 @@ def replay(rep: dict) -> bool:
     e = next((x for x in Z.zoo(thorough=True) + X.extra_zoo(thorough=True) if x.name == rep["entry"]), None)
     if e is None:
         return True
-    cat, _detail = _run_case(e, model_of(e), rep["batch"], rep["coils"], rep["h"], rep["w"], rep.get("z"), rep.get("seed", 0))
+    cat, _detail = _run_case(e, model_of(e), rep["batch"], rep["coils"], rep["h"], rep["w"], rep.get("z"), rep.get("seed", 0),
+                             noncontig=bool(rep.get("noncontig")))
     return cat != "ok"
